@@ -724,6 +724,46 @@ def scale_specs():
     links = [[i, 7, ("FS", "SS", "FF", "SF")[i % 4]] for i in range(7)]
     out.append(with_teams({"tasks": tasks, "links": links}, "DED"))
     out[-1]["label"] = "scale:seven-predecessors"
+    # (7) a join with ten FS predecessors, the slow one in the middle; and a hub with nine successors
+    tasks = [{"name": "T%d" % i, "work": 5.0 if i == 3 else 1.0} for i in range(10)] + [{"name": "T10", "work": 2.0}]
+    out.append(with_teams({"tasks": tasks, "links": [[i, 10, "FS"] for i in range(10)]}, "DED"))
+    out[-1]["label"] = "scale:ten-predecessors"
+    tasks = [{"name": "T0", "work": 2.0}, {"name": "T1", "work": 1.0}] + [{"name": "T%d" % (i + 2), "work": float(1 + i % 3)} for i in range(9)]
+    sp = with_teams({"tasks": tasks, "links": [[0, 1, "FS"]] + [[1, i + 2, "FS"] for i in range(9)]}, "POOL3")
+    sp["label"] = "scale:nine-successors"
+    out.append(sp)
+    # (8) long personal calendars written out of order and assigned after construction (weekends first, holidays appended)
+    cal_w = [4, 5, 11, 12, 18, 19, 25, 26, 8, 15]
+    cal_f = [6, 7, 13, 14, 20, 21, 27, 28, 3, 9, 2]
+    tasks = [{"name": "T0", "work": 30.0}, {"name": "T1", "work": 12.0, "nf": True}, {"name": "T2", "work": 6.0}]
+    wps = [{"name": "WP0", "cap": 1.0, "targets": [1], "facilities": [{"name": "F0", "skills": {"T1": 1.0}, "cost": 2.0, "absence_after": cal_f}]}]
+    teams = [{"name": "TM0", "targets": [0, 1, 2], "workers": [{"name": "W0", "skills": {"T0": 1.0}, "cost": 1.0, "absence_after": cal_w},
+                                                              {"name": "W1", "skills": {"T0": 0.5, "T2": 1.0}, "cost": 2.0, "absence_after": [1, 0, 2]},
+                                                              {"name": "W2", "skills": {"T1": 1.0}, "fskills": {"F0": 1.0}, "cost": 3.0, "absence_after": sorted(cal_w)}]}]
+    out.append({"tasks": tasks, "links": [], "components": [{"name": "C0", "tasks": [1]}], "workplaces": wps, "teams": teams, "label": "scale:long-unsorted-calendars"})
+    # (9) IDs that are ambiguous when concatenated: workers w1..w11, tasks "1".."12" ("w11"+"2" == "w1"+"12"), teams t1..t11 ("t1"+"11" == "t11"+"1")
+    tasks = [{"name": "task%d" % (i + 1), "id": str(i + 1), "work": 9.0 if i == 11 else (1.0 if i == 1 else float(2 + i % 2))} for i in range(12)]  # "2" is the shortest, "12" outlasts the others
+    for i, t in enumerate(tasks):  # everybody has a task of his own except w1, who is spare; "2" is reserved for w11; "10".."12" take whoever their team offers
+        if i == 0:
+            t["fixw"] = ["w2"]
+        elif i == 1:
+            t["fixw"] = ["w11"]
+        elif i < 9:
+            t["fixw"] = ["w%d" % (i + 1)]
+    allsk = {t["name"]: 1.0 for t in tasks}
+    teams = [{"name": "ta", "targets": list(range(0, 9)), "workers": [{"name": "w%d" % i, "skills": dict(allsk), "cost": 1.0} for i in range(1, 10)]},
+             {"name": "tb", "targets": [1, 9, 10, 11], "workers": [{"name": "w%d" % i, "skills": dict(allsk), "cost": 2.0} for i in (10, 11)]}]
+    out.append({"tasks": tasks, "links": [], "teams": teams, "label": "scale:ambiguous-ids-workers"})
+    tasks = [{"name": "task%d" % (i + 1), "id": str(i + 1), "work": 1.0} for i in range(11)]
+    allsk = {t["name"]: 1.0 for t in tasks}
+    # team t_k serves task (k mod 11) + 1: t1 -> "2", ..., t10 -> "11", t11 -> "1"; everybody is skilled for everything
+    teams = [{"name": "t%d" % (i + 1), "targets": [(i + 1) % 11], "workers": [{"name": "p%d" % (i + 1), "skills": dict(allsk), "cost": 1.0}]} for i in range(11)]
+    out.append({"tasks": tasks, "links": [[2, 1, "FS"], [1, 0, "FS"]], "teams": teams, "label": "scale:ambiguous-ids-teams"})
+    # (10) nine independent tasks of a one-worker team queue up in front of another team's chain
+    tasks = [{"name": "A%d" % i, "work": 2.0} for i in range(9)] + [{"name": "B1", "work": 2.0}, {"name": "B2", "work": 2.0}]
+    teams = [{"name": "TA", "targets": list(range(9)), "workers": [{"name": "wa", "skills": {"A%d" % i: 1.0 for i in range(9)}, "cost": 1.0}]},
+             {"name": "TB", "targets": [9, 10], "workers": [{"name": "wb", "skills": {"B1": 1.0, "B2": 1.0}, "cost": 1.0}]}]
+    out.append({"tasks": tasks, "links": [[9, 10, "FS"]], "teams": teams, "label": "scale:queue-of-nine"})
     return out
 
 
@@ -737,6 +777,8 @@ def scale_items(rules=("TSLACK",)):
         for ab in SCALE_ABSENCE:
             for rule in rules:
                 out.append((sp, {"rule": rule, "absence": list(ab), "max_time": seq_bound(sp) + len(ab) + 10}))
+        if sp["label"] == "scale:long-unsorted-calendars":
+            continue  # (its calendars are part of the model)
         who = worker_names(sp)[:2] + facility_names(sp)[:1]
         ra = {w: [1, 2, 4, 6, 7, 8, 10, 12] if i == 0 else [0, 3, 5, 9, 11, 13, 14, 15] for i, w in enumerate(who)}
         out.append((sp, {"rule": rules[0], "absence": [5, 6], "res_absence": ra, "max_time": seq_bound(sp) + 30}))
